@@ -29,6 +29,8 @@ def norm(object: Union[float, Tuple[float]], L: int = 0) -> float:
 
 
 class BaseCurve(Intface_BaseCurve):
+    __array_ufunc__ = None  # numpy arrays defer to the reflected operators
+
     def __init__(self, knotvector: KnotVector):
         self.__ctrlpoints = None
         self.__weights = None
